@@ -46,7 +46,7 @@ m = {
     "not_applicable": na,
     "notes": ("python3 driver ./check; every check rebuilds the harness against /repo's working tree. Exit 2 = trouble of the machinery (never a violation). "
               "Hooks: no line of the original repository is rewritten or deleted by a hook commit; commit 31eaf43 re-orders two hook lines of an earlier hook commit "
-              "relative to one line that a fix: commit had added (git shows that as a moved line). Genuine defects found: 18 fixed by fix: commits, the rest listed in known_findings.jsonl; see DESIGN.md sections 10-12."),
+              "relative to one line that a fix: commit had added (git shows that as a moved line). Genuine defects found: 19 fixed by fix: commits, the rest listed in known_findings.jsonl; see DESIGN.md sections 10-12."),
 }
 json.dump(m, open(os.path.join(os.path.dirname(HERE), "MANIFEST.json"), "w"), indent=1)
 print("wrote MANIFEST.json: %d checks, %d not applicable" % (len(checks), len(na)))
